@@ -483,10 +483,16 @@ def gen_extras(start, want_types, specials):
                 if tn != tr:
                     continue
                 byref = arg.startswith("&")
-                it = "[x, y, z].iter()" if byref else "[x, y, z].into_iter()"
-                add("<%s as %s<%s>>::%s" % (t, tr, arg or "Self", m), t, m, [g, g, g], [g],
-                    "    let x: glam::%s = V::from_val(&a[0]);\n    let y: glam::%s = V::from_val(&a[1]);\n    let z: glam::%s = V::from_val(&a[2]);\n"
-                    "    let r: glam::%s = %s.%s();\n    vec![V::into_val(r)]" % (t, t, t, t, it, m), ["a", "b", "c"])
+                # the iterator's length is an input too: empty, one, three, five items
+                for k in (0, 1, 3, 5):
+                    names = ["i0", "i1", "i2", "i3", "i4"][:k]
+                    lets = "".join("    let %s: glam::%s = V::from_val(&a[%d]);\n" % (nm, t, i) for i, nm in enumerate(names))
+                    arr = "[%s]" % ", ".join(names)
+                    it = ("%s.iter()" % arr) if byref else ("%s.into_iter()" % arr)
+                    if k == 0:
+                        it = "core::iter::empty::<&glam::%s>()" % t if byref else "core::iter::empty::<glam::%s>()" % t
+                    add("<%s as %s<%s>>::%s over %d items" % (t, tr, arg or "Self", m, k), t, m, [g] * k, [g],
+                        "%s    let r: glam::%s = %s.%s();\n    vec![V::into_val(r)]" % (lets, t, it, m), names)
         if has("Hash"):
             add("<%s as Hash>::hash" % t, t, "hash", [g], ["Ty::S(Elem::U64)"],
                 "    let s: glam::%s = V::from_val(&a[0]);\n    vec![Val::U64(crate::ops::hash_of(&s))]" % t, ["self"])
